@@ -1,0 +1,5 @@
+//go:build !verif
+
+package segment
+
+func vhook(string, any) {}
